@@ -596,3 +596,136 @@ package core
 //@ iface github.com/bmeg/grip/gdbi.CustomProcGen.GetProcessor
 //@   params self db ps
 //@   modifies H.engine_pipeline.State. alloc
+
+// ---- C01: the lookup step V(ids) / V() -------------------------------------------
+// A signal is forwarded in place. Every other input traveler yields
+//  - V(id...): in the order of the id list, one traveler per requested id that the graph
+//    has, whose current element carries that id (ids the graph does not have yield nothing);
+//  - V(): one traveler per vertex of the graph's listing, in listing order, whose current
+//    element carries that vertex's id.
+// fnd(m) counts the found ids among the first m requested; the graph's answers (vexists,
+// vlistlen, vlistid) are named by the assumed GraphInterface contract in spec/externs.gvc.
+//@ func (*LookupVerts).Process$1
+//@   property C01 C06
+//@   option prelude=trav
+//@   option load=gdbi
+//@   nopanic
+//@   requires fresh: rd(in) == 0 && wr(out) == 0 && !closed(out) && in != out && out != nil && in != nil
+//@   requires recv: l != nil && l.db != nil && soff(l.ids) >= 0
+//@   requires items: forall j :: 0 <= j && j < len(in) ==> in[j] != nil
+//@   axiom f0: fnd(0) == 0
+//@   axiom fS: forall k :: 0 <= k && k < len(l.ids) ==> fnd(k + 1) == fnd(k) + ite(vexists(l.db, l.ids[k]), 1, 0)
+//@   axiom c0: cnt(in, 0) == 0
+//@   axiom cS: forall k :: 0 <= k ==> cnt(in, k + 1) == cnt(in, k) + ite(tSignal(in[k]), 1, ite(len(l.ids) == 0, vlistlen(l.db), fnd(len(l.ids))))
+//@   loop 1 invariant pos: 0 <= rd(in) && rd(in) <= len(in) && !closed(out)
+//@   loop 1 invariant sent: wr(out) == cnt(in, rd(in))
+//@   loop 1 invariant frame: freshonly("SH.Str")
+//@   loop 1 invariant mono: forall j :: 0 <= j && j <= rd(in) ==> cnt(in, j) <= cnt(in, rd(in))
+//@   loop 1 invariant bound: forall j, a :: 0 <= j && j < rd(in) && !tSignal(in[j]) && 0 <= a && a <= len(l.ids) ==> fnd(a) <= fnd(len(l.ids))
+//@   loop 1 invariant lbound: forall j :: 0 <= j && j < rd(in) && !tSignal(in[j]) && len(l.ids) == 0 ==> vlistlen(l.db) >= 0
+//@   loop 1 invariant sigs: forall j :: 0 <= j && j < rd(in) && tSignal(in[j]) ==> out[cnt(in, j)] == in[j]
+//@   loop 1 invariant elems: forall j, i :: 0 <= j && j < rd(in) && 0 <= i && i < len(l.ids) && !tSignal(in[j]) && vexists(l.db, l.ids[i]) ==>
+//@       (tCurrent(out[cnt(in, j) + fnd(i)]) > 0 && tCurrent(out[cnt(in, j) + fnd(i)]) < alloc && cast(tCurrent(out[cnt(in, j) + fnd(i)]), "*gdbi.DataElement").ID == l.ids[i])
+//@   loop 1 invariant lelems: forall j, i :: 0 <= j && j < rd(in) && 0 <= i && i < vlistlen(l.db) && !tSignal(in[j]) && len(l.ids) == 0 ==>
+//@       (tCurrent(out[cnt(in, j) + i]) > 0 && tCurrent(out[cnt(in, j) + i]) < alloc && cast(tCurrent(out[cnt(in, j) + i]), "*gdbi.DataElement").ID == vlistid(l.db, i))
+//@   loop 2 invariant pos: 0 < rd(in) && rd(in) <= len(in) && !closed(out) && !tSignal(in[rd(in) - 1]) && len(l.ids) == 0
+//@   loop 2 invariant chan: rangechan != nil && rangechan != in && rangechan != out && 0 <= rd(rangechan) && rd(rangechan) <= len(rangechan) && len(rangechan) == vlistlen(l.db)
+//@   loop 2 invariant listed: forall i :: 0 <= i && i < len(rangechan) ==> rangechan[i] > 0 && rangechan[i] < alloc
+//@   loop 2 invariant listedid: forall i :: 0 <= i && i < len(rangechan) ==> rangechan[i].ID == vlistid(l.db, i)
+//@   loop 2 invariant sent: wr(out) == cnt(in, rd(in) - 1) + rd(rangechan)
+//@   loop 2 invariant frame: freshonly("SH.Str")
+//@   loop 2 invariant mono: forall j :: 0 <= j && j <= rd(in) - 1 ==> cnt(in, j) <= cnt(in, rd(in) - 1)
+//@   loop 2 invariant bound: forall j, a :: 0 <= j && j < rd(in) - 1 && !tSignal(in[j]) && 0 <= a && a <= len(l.ids) ==> fnd(a) <= fnd(len(l.ids))
+//@   loop 2 invariant lbound: forall j :: 0 <= j && j < rd(in) - 1 && !tSignal(in[j]) && len(l.ids) == 0 ==> vlistlen(l.db) >= 0
+//@   loop 2 invariant sigs: forall j :: 0 <= j && j < rd(in) - 1 && tSignal(in[j]) ==> out[cnt(in, j)] == in[j]
+//@   loop 2 invariant elems: forall j, i :: 0 <= j && j < rd(in) - 1 && 0 <= i && i < len(l.ids) && !tSignal(in[j]) && vexists(l.db, l.ids[i]) ==>
+//@       (tCurrent(out[cnt(in, j) + fnd(i)]) > 0 && tCurrent(out[cnt(in, j) + fnd(i)]) < alloc && cast(tCurrent(out[cnt(in, j) + fnd(i)]), "*gdbi.DataElement").ID == l.ids[i])
+//@   loop 2 invariant lelems: forall j, i :: 0 <= j && j < rd(in) - 1 && 0 <= i && i < vlistlen(l.db) && !tSignal(in[j]) && len(l.ids) == 0 ==>
+//@       (tCurrent(out[cnt(in, j) + i]) > 0 && tCurrent(out[cnt(in, j) + i]) < alloc && cast(tCurrent(out[cnt(in, j) + i]), "*gdbi.DataElement").ID == vlistid(l.db, i))
+//@   loop 2 invariant cur: forall i :: 0 <= i && i < rd(rangechan) ==>
+//@       (tCurrent(out[cnt(in, rd(in) - 1) + i]) > 0 && tCurrent(out[cnt(in, rd(in) - 1) + i]) < alloc && cast(tCurrent(out[cnt(in, rd(in) - 1) + i]), "*gdbi.DataElement").ID == vlistid(l.db, i))
+//@   loop 3 invariant pos: 0 < rd(in) && rd(in) <= len(in) && !closed(out) && -1 <= rangeindex && rangeindex < len(l.ids) && !tSignal(in[rd(in) - 1]) && len(l.ids) > 0
+//@   loop 3 invariant sent: wr(out) == cnt(in, rd(in) - 1) + fnd(rangeindex + 1)
+//@   loop 3 invariant frame: freshonly("SH.Str")
+//@   loop 3 invariant mono: forall j :: 0 <= j && j <= rd(in) - 1 ==> cnt(in, j) <= cnt(in, rd(in) - 1)
+//@   loop 3 invariant bound: forall j, a :: 0 <= j && j < rd(in) - 1 && !tSignal(in[j]) && 0 <= a && a <= len(l.ids) ==> fnd(a) <= fnd(len(l.ids))
+//@   loop 3 invariant lbound: forall j :: 0 <= j && j < rd(in) - 1 && !tSignal(in[j]) && len(l.ids) == 0 ==> vlistlen(l.db) >= 0
+//@   loop 3 invariant sigs: forall j :: 0 <= j && j < rd(in) - 1 && tSignal(in[j]) ==> out[cnt(in, j)] == in[j]
+//@   loop 3 invariant elems: forall j, i :: 0 <= j && j < rd(in) - 1 && 0 <= i && i < len(l.ids) && !tSignal(in[j]) && vexists(l.db, l.ids[i]) ==>
+//@       (tCurrent(out[cnt(in, j) + fnd(i)]) > 0 && tCurrent(out[cnt(in, j) + fnd(i)]) < alloc && cast(tCurrent(out[cnt(in, j) + fnd(i)]), "*gdbi.DataElement").ID == l.ids[i])
+//@   loop 3 invariant lelems: forall j, i :: 0 <= j && j < rd(in) - 1 && 0 <= i && i < vlistlen(l.db) && !tSignal(in[j]) && len(l.ids) == 0 ==>
+//@       (tCurrent(out[cnt(in, j) + i]) > 0 && tCurrent(out[cnt(in, j) + i]) < alloc && cast(tCurrent(out[cnt(in, j) + i]), "*gdbi.DataElement").ID == vlistid(l.db, i))
+//@   loop 3 invariant fmono: forall a :: 0 <= a && a <= rangeindex + 1 ==> fnd(a) <= fnd(rangeindex + 1)
+//@   loop 3 invariant cur: forall i :: 0 <= i && i <= rangeindex && vexists(l.db, l.ids[i]) ==>
+//@       (tCurrent(out[cnt(in, rd(in) - 1) + fnd(i)]) > 0 && tCurrent(out[cnt(in, rd(in) - 1) + fnd(i)]) < alloc && cast(tCurrent(out[cnt(in, rd(in) - 1) + fnd(i)]), "*gdbi.DataElement").ID == l.ids[i])
+//@   ensures closed: closed(out)
+//@   ensures drained: rd(in) == len(in)
+//@   ensures length: wr(out) == cnt(in, len(in))
+//@   ensures sigs: forall j :: 0 <= j && j < len(in) && tSignal(in[j]) ==> out[cnt(in, j)] == in[j]
+//@   ensures elems: forall j, i :: 0 <= j && j < len(in) && 0 <= i && i < len(l.ids) && !tSignal(in[j]) && vexists(l.db, l.ids[i]) ==>
+//@       (tCurrent(out[cnt(in, j) + fnd(i)]) > 0 && tCurrent(out[cnt(in, j) + fnd(i)]) < alloc && cast(tCurrent(out[cnt(in, j) + fnd(i)]), "*gdbi.DataElement").ID == l.ids[i])
+//@   ensures lelems: forall j, i :: 0 <= j && j < len(in) && 0 <= i && i < vlistlen(l.db) && !tSignal(in[j]) && len(l.ids) == 0 ==>
+//@       (tCurrent(out[cnt(in, j) + i]) > 0 && tCurrent(out[cnt(in, j) + i]) < alloc && cast(tCurrent(out[cnt(in, j) + i]), "*gdbi.DataElement").ID == vlistid(l.db, i))
+
+// E(id...) / E(): the same contract over the edge listing and edge lookups.
+//@ func (*LookupEdges).Process$1
+//@   property C01 C06
+//@   option prelude=trav
+//@   option load=gdbi
+//@   nopanic
+//@   requires fresh: rd(in) == 0 && wr(out) == 0 && !closed(out) && in != out && out != nil && in != nil
+//@   requires recv: l != nil && l.db != nil && soff(l.ids) >= 0
+//@   requires items: forall j :: 0 <= j && j < len(in) ==> in[j] != nil
+//@   axiom f0: fnd(0) == 0
+//@   axiom fS: forall k :: 0 <= k && k < len(l.ids) ==> fnd(k + 1) == fnd(k) + ite(eexists(l.db, l.ids[k]), 1, 0)
+//@   axiom c0: cnt(in, 0) == 0
+//@   axiom cS: forall k :: 0 <= k ==> cnt(in, k + 1) == cnt(in, k) + ite(tSignal(in[k]), 1, ite(len(l.ids) == 0, elistlen(l.db), fnd(len(l.ids))))
+//@   loop 1 invariant pos: 0 <= rd(in) && rd(in) <= len(in) && !closed(out)
+//@   loop 1 invariant sent: wr(out) == cnt(in, rd(in))
+//@   loop 1 invariant frame: freshonly("SH.Str")
+//@   loop 1 invariant mono: forall j :: 0 <= j && j <= rd(in) ==> cnt(in, j) <= cnt(in, rd(in))
+//@   loop 1 invariant bound: forall j, a :: 0 <= j && j < rd(in) && !tSignal(in[j]) && 0 <= a && a <= len(l.ids) ==> fnd(a) <= fnd(len(l.ids))
+//@   loop 1 invariant lbound: forall j :: 0 <= j && j < rd(in) && !tSignal(in[j]) && len(l.ids) == 0 ==> elistlen(l.db) >= 0
+//@   loop 1 invariant sigs: forall j :: 0 <= j && j < rd(in) && tSignal(in[j]) ==> out[cnt(in, j)] == in[j]
+//@   loop 1 invariant elems: forall j, i :: 0 <= j && j < rd(in) && 0 <= i && i < len(l.ids) && !tSignal(in[j]) && eexists(l.db, l.ids[i]) ==>
+//@       (tCurrent(out[cnt(in, j) + fnd(i)]) > 0 && tCurrent(out[cnt(in, j) + fnd(i)]) < alloc && cast(tCurrent(out[cnt(in, j) + fnd(i)]), "*gdbi.DataElement").ID == l.ids[i])
+//@   loop 1 invariant lelems: forall j, i :: 0 <= j && j < rd(in) && 0 <= i && i < elistlen(l.db) && !tSignal(in[j]) && len(l.ids) == 0 ==>
+//@       (tCurrent(out[cnt(in, j) + i]) > 0 && tCurrent(out[cnt(in, j) + i]) < alloc && cast(tCurrent(out[cnt(in, j) + i]), "*gdbi.DataElement").ID == elistid(l.db, i))
+//@   loop 2 invariant pos: 0 < rd(in) && rd(in) <= len(in) && !closed(out) && !tSignal(in[rd(in) - 1]) && len(l.ids) == 0
+//@   loop 2 invariant chan: rangechan != nil && rangechan != in && rangechan != out && 0 <= rd(rangechan) && rd(rangechan) <= len(rangechan) && len(rangechan) == elistlen(l.db)
+//@   loop 2 invariant listed: forall i :: 0 <= i && i < len(rangechan) ==> rangechan[i] > 0 && rangechan[i] < alloc
+//@   loop 2 invariant listedid: forall i :: 0 <= i && i < len(rangechan) ==> rangechan[i].ID == elistid(l.db, i)
+//@   loop 2 invariant sent: wr(out) == cnt(in, rd(in) - 1) + rd(rangechan)
+//@   loop 2 invariant frame: freshonly("SH.Str")
+//@   loop 2 invariant mono: forall j :: 0 <= j && j <= rd(in) - 1 ==> cnt(in, j) <= cnt(in, rd(in) - 1)
+//@   loop 2 invariant bound: forall j, a :: 0 <= j && j < rd(in) - 1 && !tSignal(in[j]) && 0 <= a && a <= len(l.ids) ==> fnd(a) <= fnd(len(l.ids))
+//@   loop 2 invariant lbound: forall j :: 0 <= j && j < rd(in) - 1 && !tSignal(in[j]) && len(l.ids) == 0 ==> elistlen(l.db) >= 0
+//@   loop 2 invariant sigs: forall j :: 0 <= j && j < rd(in) - 1 && tSignal(in[j]) ==> out[cnt(in, j)] == in[j]
+//@   loop 2 invariant elems: forall j, i :: 0 <= j && j < rd(in) - 1 && 0 <= i && i < len(l.ids) && !tSignal(in[j]) && eexists(l.db, l.ids[i]) ==>
+//@       (tCurrent(out[cnt(in, j) + fnd(i)]) > 0 && tCurrent(out[cnt(in, j) + fnd(i)]) < alloc && cast(tCurrent(out[cnt(in, j) + fnd(i)]), "*gdbi.DataElement").ID == l.ids[i])
+//@   loop 2 invariant lelems: forall j, i :: 0 <= j && j < rd(in) - 1 && 0 <= i && i < elistlen(l.db) && !tSignal(in[j]) && len(l.ids) == 0 ==>
+//@       (tCurrent(out[cnt(in, j) + i]) > 0 && tCurrent(out[cnt(in, j) + i]) < alloc && cast(tCurrent(out[cnt(in, j) + i]), "*gdbi.DataElement").ID == elistid(l.db, i))
+//@   loop 2 invariant cur: forall i :: 0 <= i && i < rd(rangechan) ==>
+//@       (tCurrent(out[cnt(in, rd(in) - 1) + i]) > 0 && tCurrent(out[cnt(in, rd(in) - 1) + i]) < alloc && cast(tCurrent(out[cnt(in, rd(in) - 1) + i]), "*gdbi.DataElement").ID == elistid(l.db, i))
+//@   loop 3 invariant pos: 0 < rd(in) && rd(in) <= len(in) && !closed(out) && -1 <= rangeindex && rangeindex < len(l.ids) && !tSignal(in[rd(in) - 1]) && len(l.ids) > 0
+//@   loop 3 invariant sent: wr(out) == cnt(in, rd(in) - 1) + fnd(rangeindex + 1)
+//@   loop 3 invariant frame: freshonly("SH.Str")
+//@   loop 3 invariant mono: forall j :: 0 <= j && j <= rd(in) - 1 ==> cnt(in, j) <= cnt(in, rd(in) - 1)
+//@   loop 3 invariant bound: forall j, a :: 0 <= j && j < rd(in) - 1 && !tSignal(in[j]) && 0 <= a && a <= len(l.ids) ==> fnd(a) <= fnd(len(l.ids))
+//@   loop 3 invariant lbound: forall j :: 0 <= j && j < rd(in) - 1 && !tSignal(in[j]) && len(l.ids) == 0 ==> elistlen(l.db) >= 0
+//@   loop 3 invariant sigs: forall j :: 0 <= j && j < rd(in) - 1 && tSignal(in[j]) ==> out[cnt(in, j)] == in[j]
+//@   loop 3 invariant elems: forall j, i :: 0 <= j && j < rd(in) - 1 && 0 <= i && i < len(l.ids) && !tSignal(in[j]) && eexists(l.db, l.ids[i]) ==>
+//@       (tCurrent(out[cnt(in, j) + fnd(i)]) > 0 && tCurrent(out[cnt(in, j) + fnd(i)]) < alloc && cast(tCurrent(out[cnt(in, j) + fnd(i)]), "*gdbi.DataElement").ID == l.ids[i])
+//@   loop 3 invariant lelems: forall j, i :: 0 <= j && j < rd(in) - 1 && 0 <= i && i < elistlen(l.db) && !tSignal(in[j]) && len(l.ids) == 0 ==>
+//@       (tCurrent(out[cnt(in, j) + i]) > 0 && tCurrent(out[cnt(in, j) + i]) < alloc && cast(tCurrent(out[cnt(in, j) + i]), "*gdbi.DataElement").ID == elistid(l.db, i))
+//@   loop 3 invariant fmono: forall a :: 0 <= a && a <= rangeindex + 1 ==> fnd(a) <= fnd(rangeindex + 1)
+//@   loop 3 invariant cur: forall i :: 0 <= i && i <= rangeindex && eexists(l.db, l.ids[i]) ==>
+//@       (tCurrent(out[cnt(in, rd(in) - 1) + fnd(i)]) > 0 && tCurrent(out[cnt(in, rd(in) - 1) + fnd(i)]) < alloc && cast(tCurrent(out[cnt(in, rd(in) - 1) + fnd(i)]), "*gdbi.DataElement").ID == l.ids[i])
+//@   ensures closed: closed(out)
+//@   ensures drained: rd(in) == len(in)
+//@   ensures length: wr(out) == cnt(in, len(in))
+//@   ensures sigs: forall j :: 0 <= j && j < len(in) && tSignal(in[j]) ==> out[cnt(in, j)] == in[j]
+//@   ensures elems: forall j, i :: 0 <= j && j < len(in) && 0 <= i && i < len(l.ids) && !tSignal(in[j]) && eexists(l.db, l.ids[i]) ==>
+//@       (tCurrent(out[cnt(in, j) + fnd(i)]) > 0 && tCurrent(out[cnt(in, j) + fnd(i)]) < alloc && cast(tCurrent(out[cnt(in, j) + fnd(i)]), "*gdbi.DataElement").ID == l.ids[i])
+//@   ensures lelems: forall j, i :: 0 <= j && j < len(in) && 0 <= i && i < elistlen(l.db) && !tSignal(in[j]) && len(l.ids) == 0 ==>
+//@       (tCurrent(out[cnt(in, j) + i]) > 0 && tCurrent(out[cnt(in, j) + i]) < alloc && cast(tCurrent(out[cnt(in, j) + i]), "*gdbi.DataElement").ID == elistid(l.db, i))
